@@ -1,5 +1,7 @@
 import EdpVerif.Impl.Framing
 import EdpVerif.Lemmas.Framing
+import EdpVerif.Lemmas.FramingTimeout
+import EdpVerif.Lemmas.FramingWrite
 /-
 C05 — framing is invariant under how the transport splits the byte stream.
 Property theorems only; the model is EdpVerif/Impl/Framing.lean, helper lemmas are in EdpVerif/Lemmas/Framing.lean.
@@ -12,75 +14,100 @@ result; `recvAll cap evs` does the same with the second copy of the loop (`recei
 namespace Edp.Props.C05
 open Edp Edp.Framing
 
+/-! ### what the model takes from the source on every run -/
+
+/-- the constants and step orders the translator reads from framing.rs / connection.rs / transport.rs are the ones the
+model is written for, and the protocol's: a 2-byte prefix during the handshake and a 4-byte prefix afterwards in all
+five places that deal with it (`length_prefix_size`, `frame_message`, `write_framed`, `read_framed`, the second copy);
+the caps are the model's (`framingCap`, `connCap` ARE the generated values) and lie below what the prefix can say, so
+the cap test is never vacuous; `read_framed` and the second copy test for the tick and the cap BEFORE they allocate
+and read the body; `write_framed` writes length, data, flush in this order; every socket read of the second copy and
+every operation of `FramedTransport` sits under a timeout whose error is classified as recoverable (the premise of
+the timeout theorems below). -/
+theorem C05_model_constants_are_the_sources :
+    Gen.FRAME_PREFIX_SIZE = (Mode.prefixSize .handshake, Mode.prefixSize .distribution) ∧
+    Gen.FRAME_PREFIX_SIZE = (2, 4) ∧
+    Gen.FRAME_MESSAGE_WIDTH = Gen.FRAME_PREFIX_SIZE ∧ Gen.WRITE_FRAMED_WIDTH = Gen.FRAME_PREFIX_SIZE ∧
+    Gen.READ_FRAMED_WIDTH = Gen.FRAME_PREFIX_SIZE ∧ Gen.RH_PREFIX_WIDTH = Mode.prefixSize .distribution ∧
+    framingCap = Gen.FRAMING_MAX_MESSAGE_SIZE ∧ connCap = Gen.CONN_MAX_MESSAGE_SIZE ∧
+    0 < connCap ∧ connCap ≤ framingCap ∧ framingCap < 256 ^ Mode.prefixSize .distribution ∧
+    Gen.CONN_PASS_THROUGH = 112 ∧
+    Gen.READ_FRAMED_STEPS = ["len", "tick", "cap", "alloc", "body"] ∧
+    Gen.RH_STEPS = ["len", "tick", "cap", "alloc", "body", "marker", "decode"] ∧
+    Gen.WRITE_FRAMED_STEPS = ["len", "data", "flush"] ∧
+    Gen.RH_TIMEOUT_READS = 2 ∧ Gen.RH_TICK_CONTINUES = true ∧ Gen.TRANSPORT_OPS_UNDER_TIMEOUT = true ∧
+    Gen.TIMEOUT_IS_RECOVERABLE = true ∧ Gen.SEND_RAW_CHECKS_CAP = true := by
+  decide
+
 /-! ### the writer -/
 
 /-- the streaming writer puts the one-shot frame on the wire, through every sink behaviour (partial acceptance,
-`Pending`, failure): what the sink accepted is always a prefix of `frame_message`'s bytes, all of them followed by
-exactly one flush on success, strictly fewer and no flush on failure; and a sink that never fails or accepts zero
-bytes makes it succeed. -/
-theorem C05_writer_eq_oneshot (mode : Mode) (msg : Bytes) (s : List WEv) :
-    (writeFramed mode msg s).chunks.flatten <+: frame mode msg ∧
-    ((writeFramed mode msg s).res = .ok () →
-      (writeFramed mode msg s).chunks.flatten = frame mode msg ∧ (writeFramed mode msg s).flushes = 1) ∧
-    (∀ e, (writeFramed mode msg s).res = .error e →
-      (writeFramed mode msg s).chunks.flatten.length < (frame mode msg).length ∧ (writeFramed mode msg s).flushes = 0) ∧
-    (GoodSink s → (writeFramed mode msg s).res = .ok ()) := by
-  obtain ⟨a1, a2, a3⟩ := writeAll_spec s (beN mode.prefixSize msg.length)
-  obtain ⟨b1, b2, b3⟩ := writeAll_spec (writeAll (beN mode.prefixSize msg.length) s).rest msg
-  cases h1 : (writeAll (beN mode.prefixSize msg.length) s).res with
-  | error e =>
-    have hw : writeFramed mode msg s = ⟨.error e, (writeAll (beN mode.prefixSize msg.length) s).chunks, 0⟩ := by
-      simp only [writeFramed, h1]
-    rw [hw]
-    simp only [frame]
-    have := a3 e h1
-    refine ⟨?_, by simp, ?_, ?_⟩
-    · obtain ⟨u, hu⟩ := a1
-      exact ⟨u ++ msg, by rw [← List.append_assoc, hu]⟩
-    · intro e' _
-      refine ⟨by rw [List.length_append]; omega, by first | rfl | trivial⟩
-    · intro hg
-      have := (writeAll_good s (beN mode.prefixSize msg.length) hg).1
-      rw [h1] at this
-      simp at this
-  | ok u =>
-    cases u
-    have e1 := a2 h1
-    cases h2 : (writeAll msg (writeAll (beN mode.prefixSize msg.length) s).rest).res with
-    | error e =>
-      have hw : writeFramed mode msg s = ⟨.error e, (writeAll (beN mode.prefixSize msg.length) s).chunks ++
-          (writeAll msg (writeAll (beN mode.prefixSize msg.length) s).rest).chunks, 0⟩ := by
-        simp only [writeFramed, h1, h2]
-      rw [hw]
-      simp only [frame]
-      have := b3 e h2
-      refine ⟨?_, by simp, ?_, ?_⟩
-      · rw [List.flatten_append, e1]
-        obtain ⟨u, hu⟩ := b1
-        exact ⟨u, by rw [List.append_assoc, hu]⟩
-      · intro e' _
-        refine ⟨?_, by first | rfl | trivial⟩
-        rw [List.flatten_append, e1, List.length_append, List.length_append]; omega
-      · intro hg
-        have := (writeAll_good _ msg (writeAll_good s (beN mode.prefixSize msg.length) hg).2).1
-        rw [h2] at this
-        simp at this
-    | ok u =>
-      cases u
-      have hw : writeFramed mode msg s = ⟨.ok (), (writeAll (beN mode.prefixSize msg.length) s).chunks ++
-          (writeAll msg (writeAll (beN mode.prefixSize msg.length) s).rest).chunks, 1⟩ := by
-        simp only [writeFramed, h1, h2]
-      rw [hw]
-      simp only [frame]
-      have e2 := b2 h2
-      refine ⟨?_, ?_, by simp, by simp⟩
-      · rw [List.flatten_append, e1, e2]; exact List.prefix_refl _
-      · intro _
-        exact ⟨by rw [List.flatten_append, e1, e2], by first | rfl | trivial⟩
+`Pending`, zero writes, failures, a stall that outlasts the write timeout — at every position) and every behaviour of
+`poll_flush`: what the sink accepted is always a prefix of `frame_message`'s bytes; on success it is all of them,
+followed by exactly one completed flush; on failure no flush completed, and either strictly fewer bytes were accepted
+or the error is the flush's; fewer bytes than the frame on the wire always come with an error (never a silent short
+frame); and a sink that never fails, stalls or accepts zero bytes makes it succeed. -/
+theorem C05_writer_eq_oneshot (mode : Mode) (msg : Bytes) (s : List WEv) (fl : List FEv) :
+    (writeFramed mode msg s fl).chunks.flatten <+: frame mode msg ∧
+    ((writeFramed mode msg s fl).res = .ok () →
+      (writeFramed mode msg s fl).chunks.flatten = frame mode msg ∧ (writeFramed mode msg s fl).flushes = 1) ∧
+    (∀ e, (writeFramed mode msg s fl).res = .error e → (writeFramed mode msg s fl).flushes = 0 ∧
+      ((writeFramed mode msg s fl).chunks.flatten.length < (frame mode msg).length ∨ (flushAll fl).1 = .error e)) ∧
+    ((writeFramed mode msg s fl).chunks.flatten.length < (frame mode msg).length →
+      ∃ e, (writeFramed mode msg s fl).res = .error e) ∧
+    (GoodSink s → GoodFlush fl → (writeFramed mode msg s fl).res = .ok ()) := by
+  obtain ⟨h1, h2, h3, h4⟩ := writeFramed_spec mode msg s fl
+  exact ⟨h1, h2, h3, h4, fun hs hf => (writeFramed_good mode msg s fl hs hf).1⟩
 
 example : GoodSink [.accept 1, .pending, .accept 3] := by simp [GoodSink]
+example : GoodFlush [.pending, .done] := by simp [GoodFlush]
 example : (writeFramed .handshake [7, 8] [.accept 1, .pending, .accept 3]).chunks = [[0], [2], [7, 8]] := by decide
 example : (writeFramed .distribution [7, 8] [.accept 3, .accept 0]).chunks = [[0, 0, 0]] := by decide
+example : (writeFramed .handshake [7] [] [.pending, .fail]).res = .error .io ∧
+    (writeFramed .handshake [7] [] [.pending, .fail]).chunks.flatten = frame .handshake [7] := ⟨by rfl, by decide⟩
+example : (writeFramed .handshake [7] [.accept 2, .stall]).res = .error .timeout ∧
+    (writeFramed .handshake [7] [.accept 2, .stall]).chunks = [[0, 1]] := ⟨by rfl, by decide⟩
+
+/-- **Write, then read.** Messages that fit, written one after the other by the streaming writer through any sink that
+does not fail (however it splits and delays the acceptance), arrive on a wire that any clean transport — whatever ITS
+segmentation — turns back into exactly these messages, in order, then end of stream; every write reports success. -/
+theorem C05_write_then_read (mode : Mode) (msgs : List Bytes)
+    (h : ∀ m ∈ msgs, fits mode m ∧ m.length ≤ framingCap) (s : List WEv) (fl : List FEv) (hs : GoodSink s)
+    (hf : GoodFlush fl) (evs : List Ev) (hc : Clean evs)
+    (hp : payload evs = (writeMany mode msgs s fl).2.flatten) :
+    (writeMany mode msgs s fl).1 = msgs.map (fun _ => .ok ()) ∧
+      readAll framingCap mode evs = msgs.map .ok ++ [.error .eof] := by
+  obtain ⟨w1, w2⟩ := writeMany_good mode msgs s fl hs hf
+  refine ⟨w1, ?_⟩
+  have := readAll_clean framingCap mode [] msgs evs h hc (by rw [hp, w2])
+  rw [List.append_nil, readAll_nil] at this
+  exact this
+
+example : (writeMany .handshake [[7], []] [.accept 1, .pending, .accept 1, .accept 1] [.pending]).2
+    = [[0], [1], [7], [0, 0]] := by decide
+
+/-- **The property fails for a write that outlasts the write timeout.** `FramedTransport::write` is
+`timeout(d, write_framed)`; when it fires after the sink took part of the frame, that part stays on the wire,
+`Error::Timeout` is classified as recoverable, and the caller's retry puts a whole frame behind the partial one. The
+peer reads two messages, neither of which was sent. -/
+theorem C05_not_write_delay_invariant :
+    ∃ (msg : Bytes) (s : List WEv), fits .handshake msg ∧ msg.length ≤ framingCap ∧
+      (∀ e ∈ s, e ≠ .fail ∧ e ≠ .accept 0) ∧
+      (writeMany .handshake [msg, msg] s []).1 = [.error .timeout, .ok ()] ∧
+      readAll framingCap .handshake ((writeMany .handshake [msg, msg] s []).2.map .chunk)
+        = [.ok [0, 0, 3], .ok [7], .error .eof] ∧ [0, 0, 3] ≠ msg ∧ [7] ≠ msg :=
+  ⟨[0, 1, 7], [.accept 2, .accept 1, .stall], by decide, by decide, by decide, by rfl, by rfl, by decide, by decide⟩
+
+/-- what remains true: as long as no write or flush stalls past the timeout (guard: no `stall` event; failures, zero
+writes, partial acceptance allowed), no write reports `Timeout` and the wire is a prefix of the frames of the
+messages, in order — a reader sees messages that were sent, then at worst an end of stream inside a frame. -/
+theorem C05_write_delay_partial (mode : Mode) (msgs : List Bytes) (s : List WEv) (fl : List FEv)
+    (hs : ∀ e ∈ s, e ≠ WEv.stall) (hf : ∀ e ∈ fl, e ≠ FEv.stall) :
+    (∀ r ∈ (writeMany mode msgs s fl).1, r ≠ .error .timeout) ∧
+      (writeMany mode msgs s fl).2.flatten <+: (msgs.map (frame mode)).flatten :=
+  writeMany_nostall mode msgs s fl hs hf
+
+example : (writeMany .handshake [[7], [8]] [.accept 2, .fail] []) = ([.error .io], [[0, 1]]) := by rfl
 
 /-! ### the reader: split invariance -/
 
@@ -218,6 +245,87 @@ example : Clean [.chunk [0], .pending, .chunk [1, 5]] ∧
     payload [.chunk [0], .pending, .chunk [1, 5]] = ([[5]].map (frame .handshake)).flatten := by
   refine ⟨by simp [Clean], by decide⟩
 
+/-- **What a timeout leaves behind (all frames, all positions).** The script delivers, cleanly, a strict prefix of
+the frame of `m` — nothing at all when the stall is at a frame boundary — and then stalls past the timeout. The
+caller gets `Timeout`; every byte consumed so far is dropped with the read future; the retry reads from the first byte
+after the stall. So at a frame boundary nothing is lost, and inside a frame the stream is re-entered in the middle of
+the frame (`C05_not_delay_invariant` is an instance). -/
+theorem C05_timeout_drops_consumed_bytes (mode : Mode) (c : List Ev) (m missing : Bytes) (tail : List Ev)
+    (hc : Clean c) (hp : payload c ++ missing = frame mode m) (hmiss : missing ≠ [])
+    (hf : fits mode m) (hcap : m.length ≤ framingCap) :
+    (readFramed framingCap mode (c ++ .stall :: tail)).res = .error .timeout ∧
+    (readFramed framingCap mode (c ++ .stall :: tail)).rest = tail ∧
+    readRetry framingCap mode (c ++ .stall :: tail) = .error .timeout :: readRetry framingCap mode tail := by
+  obtain ⟨h1, h2⟩ := readFramed_cut framingCap mode c m missing (.stall :: tail) .timeout tail hc hp hmiss hf hcap rfl
+  exact ⟨h1, h2, readRetry_stall framingCap mode c m missing tail hc hp hmiss hf hcap⟩
+
+example : payload [.chunk [0], .pending, .chunk [3, 0]] ++ [1, 7] = frame .handshake [0, 1, 7] := by decide
+
+/-- the retrying caller, compositional form (its fuel is adequate: `readRetry_unfold`): whole frames delivered cleanly
+come out in order and whatever follows — a stall, more data, a failure — is seen by the reads that follow -/
+theorem C05_retry_split_invariance_then (mode : Mode) (msgs : List Bytes)
+    (h : ∀ m ∈ msgs, fits mode m ∧ m.length ≤ framingCap) (c tail : List Ev) (hc : Clean c)
+    (hp : payload c = (msgs.map (frame mode)).flatten) :
+    readRetry framingCap mode (c ++ tail) = msgs.map .ok ++ readRetry framingCap mode tail :=
+  readRetry_clean framingCap mode tail msgs c h hc hp
+
+/-- **Timeouts between frames are harmless**: frames, a delay that outlasts the timeout exactly at a frame boundary,
+more frames — the retrying caller sees every message, in order, with one `Timeout` in between, then end of stream.
+(By induction with the two theorems above this extends to any number of such delays.) -/
+theorem C05_timeout_between_frames_harmless (mode : Mode) (msgs₁ msgs₂ : List Bytes)
+    (h₁ : ∀ m ∈ msgs₁, fits mode m ∧ m.length ≤ framingCap) (h₂ : ∀ m ∈ msgs₂, fits mode m ∧ m.length ≤ framingCap)
+    (c₁ c₂ : List Ev) (hc₁ : Clean c₁) (hc₂ : Clean c₂) (hp₁ : payload c₁ = (msgs₁.map (frame mode)).flatten)
+    (hp₂ : payload c₂ = (msgs₂.map (frame mode)).flatten) :
+    readRetry framingCap mode (c₁ ++ .stall :: c₂)
+      = msgs₁.map .ok ++ .error .timeout :: (msgs₂.map .ok ++ [.error .eof]) := by
+  rw [readRetry_clean framingCap mode _ msgs₁ c₁ h₁ hc₁ hp₁]
+  have hs := readRetry_stall framingCap mode [] [] (frame mode []) c₂ (by simp [Clean]) (by simp [payload])
+    (by obtain ⟨k, hk⟩ := prefixSize_pos mode; simp [frame, beN, hk])
+    (by unfold fits; exact Nat.pow_pos (by omega)) (by simp)
+  rw [List.nil_append] at hs
+  rw [hs]
+  have := readRetry_clean framingCap mode [] msgs₂ c₂ h₂ hc₂ hp₂
+  rw [List.append_nil, readRetry_nil] at this
+  rw [this]
+
+example : readRetry framingCap .handshake ([.chunk [0, 1], .chunk [5]] ++ .stall :: [.pending, .chunk [0, 0]])
+    = [.ok [5]] ++ .error .timeout :: ([.ok []] ++ [.error .eof]) :=
+  C05_timeout_between_frames_harmless .handshake [[5]] [[]] (by decide) (by decide) _ _ (by simp [Clean])
+    (by simp [Clean]) (by decide) (by decide)
+
+/-- **A transport that is cut off inside a frame is an error, never a short message** — whatever the cut is: the end of
+the script, a 0-byte read (`eof` or an empty chunk), an I/O failure, a stall past the timeout; and what the next
+read sees is the script after the cut (generalises `C05_eof_inside` to every kind of cut). -/
+theorem C05_cut_inside_frame_is_error (mode : Mode) (c : List Ev) (m missing : Bytes) (tail : List Ev) (e : RErr)
+    (r : List Ev) (hc : Clean c) (hp : payload c ++ missing = frame mode m) (hmiss : missing ≠ [])
+    (hf : fits mode m) (hcap : m.length ≤ framingCap) (ht : cutErr tail = some (e, r)) :
+    (readFramed framingCap mode (c ++ tail)).res = .error e ∧ (readFramed framingCap mode (c ++ tail)).rest = r :=
+  readFramed_cut framingCap mode c m missing tail e r hc hp hmiss hf hcap ht
+
+example : cutErr [.chunk [], .chunk [9]] = some (.eof, [.chunk [9]]) ∧ cutErr [.fail] = some (.io, []) ∧
+    cutErr ([] : List Ev) = some (.eof, []) := by decide
+
+/-! ### `FramedTransport` -/
+
+/-- `FramedTransport` never frames one direction differently from the other: after any sequence of its operations the
+framer's mode is the deframer's (so what one transport writes, a peer transport that went through the same mode
+switches reads, by `C05_write_then_read`); and without a stream `read`, `write`, `write_raw` report it and touch
+nothing. -/
+theorem C05_transport_modes_agree (cap : Nat) (ops : List TOp) :
+    (tstate cap TState.new ops).fm = (tstate cap TState.new ops).dm := by
+  suffices h : ∀ (ops : List TOp) (st : TState), st.fm = st.dm → (tstate cap st ops).fm = (tstate cap st ops).dm from
+    h ops TState.new rfl
+  intro ops
+  induction ops with
+  | nil => intro st h; exact h
+  | cons op r ih =>
+    intro st h
+    apply ih
+    cases op <;> simp [tstep, h]
+
+example : trun 100 TState.new [.write [7], .connect, .setMode .distribution, .write [7], .takeRead, .isConnected]
+    = [.noStream, .unit, .unit, .wire [0, 0, 0, 1, 7], .bool true, .bool false] := by rfl
+
 /-! ### the second copy of the read loop (`Connection::receive_message_from_read_half`, cap 64 MiB) -/
 
 /-- split invariance of the second copy: ticks are skipped, every other body is handed on, in order, whatever the
@@ -267,6 +375,29 @@ example : payload [.chunk [4], .chunk [0, 0, 1]] = beN 4 (connCap + 1) ++ [] := 
 /-- on every script: the second copy never requests a body buffer above its cap -/
 theorem C05_rh_alloc_bounded (evs : List Ev) : (recvBody connCap evs).allocRequested ≤ connCap :=
   recvBodyF_alloc_le connCap _ evs
+
+/-- the second copy under a timeout (each of its two `read_exact`s has its own): a stall after a strict prefix of a
+non-tick frame — nothing at a boundary — gives `Timeout`, drops what was consumed, and the next call starts after
+the stall -/
+theorem C05_rh_timeout_drops_consumed_bytes (c : List Ev) (m missing : Bytes) (tail : List Ev)
+    (hc : Clean c) (hp : payload c ++ missing = frame .distribution m) (hmiss : missing ≠ [])
+    (hf : fits .distribution m) (hcap : m.length ≤ connCap) :
+    (recvBody connCap (c ++ .stall :: tail)).res = .error .timeout ∧
+    (recvBody connCap (c ++ .stall :: tail)).rest = tail ∧
+    recvRetry connCap (c ++ .stall :: tail) = .error .timeout :: recvRetry connCap tail := by
+  obtain ⟨h1, h2⟩ := recvBody_cut connCap c m missing (.stall :: tail) .timeout tail hc hp hmiss hf hcap rfl
+  exact ⟨h1, h2, recvRetry_stall connCap c m missing tail hc hp hmiss hf hcap⟩
+
+example : payload [.chunk [0, 0, 0, 5]] ++ [0, 0, 0, 1, 9] = frame .distribution [0, 0, 0, 1, 9] := by decide
+
+/-- the finding in the second copy: the body `[0,0,0,1,9]` delivered as length bytes, a stall, the body — the retry
+takes the body's first four bytes for a length and hands on the body `[9]`, which was never sent -/
+theorem C05_rh_not_delay_invariant :
+    ∃ (body : Bytes) (evs : List Ev), fits .distribution body ∧ body.length ≤ connCap ∧
+      payload evs = frame .distribution body ∧ (∀ e ∈ evs, e ≠ .eof ∧ e ≠ .fail ∧ e ≠ .chunk []) ∧
+      recvRetry connCap evs = [.error .timeout, .ok [9], .error .eof] ∧ [9] ≠ body :=
+  ⟨[0, 0, 0, 1, 9], [.chunk [0, 0, 0, 5], .stall, .chunk [0, 0, 0, 1, 9]], by decide, by decide, by decide, by decide,
+    by rfl, by decide⟩
 
 /-- the two copies disagree about what is too large: a length between the caps is read by `read_framed` and refused by
 `receive_message_from_read_half` -/
